@@ -512,5 +512,6 @@ func genC02(g *Gen) {
 	c02HistoryDirected(g)
 	c02HistoryFiltered(g)
 	c02HistoryRemovals(g)
+	c02MtimeRange(g)
 	c02HistoryRandom(g, g.Vol(150, 3000))
 }
